@@ -287,6 +287,9 @@ def run(ctx: Ctx) -> None:
     rep.floor("C12.R7", n7, 2)
     n3 = passthrough_rules(ctx, "C12.R3")
     rep.floor("C12.R3", n3, 6)
+    rep.rule("C12.R10", "presence answers are booleans: `has_blob` of every store returns a test (comparison, membership, existence, another has_blob), never the looked-up object")
+    n10 = presence_answers_are_booleans(ctx, "C12.R10")
+    rep.floor("C12.R10", n10, 4)
     rep.rule("C12.R8", "after the wrapper has stored a blob under a key, the object cached under that key (fetched before) is not served any more: every path from the completed "
                        "`store_blob` of the wrapped store to the exit drops the key from the cache or puts the stored object itself there (the bare stores overwrite)")
     n8 = store_refreshes_cache(ctx, "C12.R8")
@@ -297,6 +300,60 @@ def run(ctx: Ctx) -> None:
     if ctx.report.prop == "C12":
         from .common import share_rules as _share8
         _share8(ctx, "C08", "C12.R9", ['C08.R14'], 'the bare memory store decides presence by membership, not by the truth value of the blob: the wrapped store - which answers presence from what it fetched - then never disagrees with it on falsy blobs')
+
+
+def presence_answers_are_booleans(ctx: Ctx, rule: str) -> int:
+    """`has_blob` of every store answers True or False - the wrapped store exactly what the bare one answers.  An answer that is the looked-up object itself (`self._cache.get(key) or
+    ..`) is truthy where the bare store says True, but it is not equal to it, and it keeps the cached object alive in the hands of whoever keeps presence answers."""
+    rep = ctx.report
+    prog = ctx.prog
+    n = 0
+
+    def boolean(f: Func, e: ast.AST, depth: int = 0) -> bool:
+        if isinstance(e, ast.Constant):
+            return isinstance(e.value, bool)
+        if isinstance(e, ast.Compare):
+            return True
+        if isinstance(e, ast.UnaryOp) and isinstance(e.op, ast.Not):
+            return True
+        if isinstance(e, ast.BoolOp):
+            return all(boolean(f, v, depth) for v in e.values)
+        if isinstance(e, ast.IfExp):
+            return boolean(f, e.body, depth) and boolean(f, e.orelse, depth)
+        if isinstance(e, ast.Call):
+            d = prog.dotted(f, e.func) or unparse(e.func)
+            last = d.split(".")[-1]
+            if last in ("bool", "isinstance", "issubclass", "callable", "any", "all", "exists", "isfile", "isdir", "islink", "lexists", "has_blob", "startswith", "endswith", "is_file", "is_dir"):
+                return True
+            fs, _ = prog.callees(f, e, ctx._types)
+            if fs and depth < 2 and all(g.module.name.startswith("dds") for g in fs):
+                return all(r.value is not None and boolean(g, r.value, depth + 1) for g in fs for r in g.own_nodes() if isinstance(r, ast.Return)) and all(
+                    any(isinstance(r, ast.Return) for r in g.own_nodes()) for g in fs)
+            return False
+        if isinstance(e, ast.Name) and depth < 3:
+            try:
+                ds = flow_of(prog, f).defs_of_use(e)
+            except Exception:
+                ds = []
+            return bool(ds) and all(d.value is not None and getattr(d, "kind", "assign") == "assign" and boolean(f, d.value, depth + 1) for d in ds)
+        return False
+    for cq in sorted(prog.subclasses("dds.store.Store")):
+        c = prog.classes[cq]
+        m = c.methods.get("has_blob")
+        if m is None:
+            continue
+        for r in m.own_nodes():
+            if not (isinstance(r, ast.Return) and r.value is not None):
+                continue
+            n += 1
+            desc = f"{c.name}.has_blob answers True or False"
+            if boolean(m, r.value):
+                rep.ok(rule, m.qname, desc, m.loc(r))
+            else:
+                rep.bad(rule, m.qname, desc, m.loc(r), [f"{m.loc(r)}: `{unparse(r, 70)}`: an operand of the answer is an object, not a test",
+                        "for a key whose object is in the cache the wrapped store answers `Entry(obj=<the cached object>)` where the bare store answers True: the two answers differ "
+                        "(`==`, `is True`), and the answer pins the cached object"], stmt_key(r), what=f"{c.name}.has_blob answers with an object instead of True / False")
+    return n
 
 
 def store_refreshes_cache(ctx: Ctx, rule: str) -> int:
